@@ -596,6 +596,7 @@ func Run(t *testing.T, sc *Scenario, emit func(evs []vh.Event, stats map[string]
 		}
 		rec.Log("Start", "ch", "c1")
 		r.cli = jrpc2.NewClient(r.ch, opts)
+		*opts = jrpc2.ClientOptions{} // (options are read when the client is made)
 		s.Settle()
 		for _, st := range sc.Steps {
 			r.doStep(st)
